@@ -816,6 +816,48 @@ theorem mgrInv_run (C : Crypto) (md5 : Bytes → Bytes) (cr : Cred) (st : MgrSt)
   | nil => exact hinv
   | cons e t ih => exact ih _ (mgrInv_step C md5 cr st e hinv)
 
+/-- which mechanism a state belongs to; never changes during an exchange -/
+def mechKindOf : MechSt → MechKind
+  | .scram _ => .scram
+  | .digest _ => .digest
+  | .plain _ => .plain
+  | .ht _ => .ht
+
+theorem mechRespond_kind (C : Crypto) (md5 : Bytes → Bytes) (cr : Cred) (m : MechSt) (ch : Bytes) :
+    mechKindOf (mechRespond C md5 cr m ch).1 = mechKindOf m := by
+  cases m <;> rfl
+
+theorem mgrStep_kind (C : Crypto) (md5 : Bytes → Bytes) (cr : Cred) (st : MgrSt) (el : El) :
+    mechKindOf (mgrStep C md5 cr st el).1.mech = mechKindOf st.mech := by
+  unfold mgrStep
+  split
+  · rfl
+  · cases el with
+    | success d =>
+      dsimp only
+      split
+      · rfl
+      · split
+        · rfl
+        · split <;> exact mechRespond_kind C md5 cr _ _
+    | challenge data =>
+      dsimp only
+      split <;> exact mechRespond_kind C md5 cr _ _
+    | failure a => dsimp only; split <;> rfl
+    | continue_ => dsimp only; split <;> rfl
+    | unknown => rfl
+
+theorem mgr_mech_kind (C : Crypto) (md5 : Bytes → Bytes) (cr : Cred) (sasl2 : Bool) (k : MechKind) (els : List El) :
+    mechKindOf (mgrRun C md5 cr (mgrStart C md5 cr sasl2 k).1 els).1.mech = k := by
+  have hstart : mechKindOf (mgrStart C md5 cr sasl2 k).1.mech = k := by
+    unfold mgrStart
+    dsimp only
+    split <;> (rw [show ∀ x : MgrSt × List Out, x.1.mech = x.1.mech from fun _ => rfl]; simp only []; rw [mechRespond_kind]; cases k <;> rfl)
+  generalize (mgrStart C md5 cr sasl2 k).1 = st at hstart
+  induction els generalizing st with
+  | nil => exact hstart
+  | cons e t ih => exact ih _ (by rw [mgrStep_kind]; exact hstart)
+
 /-! ## PLAIN, DIGEST bits -/
 
 theorem splitOn_plain (user pass : Bytes) (hu : (0 : UInt8) ∉ user) (hp : (0 : UInt8) ∉ pass) :
